@@ -475,6 +475,10 @@ def run(ctx: Ctx) -> None:
     rep.rule("C03.R14", "as C01.R4: each structural option (accept_list / accept_dict) governs its own types only: the signature of a function that reads a dict variable does not "
                         "depend on the option of the lists")
     tracked_type_table(ctx, "C03.R14")
+    if rep.prop == "C03":
+        from .common import share_rules
+        share_rules(ctx, "C09", "C03.R17", ["C09.R2"], "a path produced during the analysis is registered with the return signature of its producer - the key the store records: a reader "
+                    "gets the same signature whether producer and reader are evaluated together or one after the other (prior sequence of evaluations)")
     from .c05 import dict_order_insensitive
     rep.rule("C03.R16", "the signature of a dictionary argument is the same in every process and for every hash seed: equal plain dictionaries are hashed in a canonical order of their "
                         "items, not in insertion order (which, for a dictionary built from a set, follows the hash seed)")
